@@ -9,6 +9,8 @@ import (
 	"encoding/json"
 	"errors"
 	"fmt"
+	"io"
+	"log"
 	"github.com/olric-data/olric/internal/cluster/partitions"
 	"github.com/olric-data/olric/internal/verifhook"
 	"sync"
@@ -488,6 +490,48 @@ func init() {
 					ob = map[string]interface{}{"r": "ok", "t0": t0.UnixMilli(), "t1": time.Now().UnixMilli()}
 				case "routing":
 					ob = map[string]interface{}{"r": "ok", "routing": cl.routingDump(), "t0": time.Now().UnixMilli(), "t1": time.Now().UnixMilli()}
+				case "clientroute":
+					// a cluster client created NOW (it fetches the current routing table) and every live member: to which member does
+					// a key of DMap op.D go? The members take the last entry of the partition's owners list (Partition.Owner).
+					t0 := time.Now()
+					ob = map[string]interface{}{"r": "ok", "t0": t0.UnixMilli()}
+					var addrs []string
+					for _, m := range cl.Live() {
+						addrs = append(addrs, m.Addr)
+					}
+					cc, err := olric.NewClusterClient(addrs, olric.WithLogger(log.New(io.Discard, "", 0)))
+					if err != nil {
+						ob["r"] = "env:" + err.Error()
+					} else {
+						_ = cc.RefreshMetadata(context.Background())
+						var diffs []map[string]interface{}
+						multi := 0
+						for _, kx := range op.Ks {
+							kb, _ := hex.DecodeString(kx)
+							key := string(kb)
+							h := partitions.HKey(op.D, key)
+							_, _, addr, addr2, err := cc.VerifSmartPick(op.D, key)
+							if err != nil {
+								diffs = append(diffs, map[string]interface{}{"k": kx, "err": err.Error()})
+								continue
+							}
+							for i, m := range cl.Live() {
+								part := m.DB.VerifPrimary().PartitionByHKey(h)
+								if i == 0 && part.OwnerCount() > 1 {
+									multi++
+								}
+								own := part.Owner().Name
+								if own != addr || own != addr2 {
+									diffs = append(diffs, map[string]interface{}{"k": kx, "member": m.Addr, "member_owner": own, "client": addr, "client_by_part": addr2, "owners": part.OwnerCount()})
+									break
+								}
+							}
+						}
+						ob["diffs"] = diffs
+						ob["multi_owner_keys"] = multi
+						_ = cc.Close(context.Background())
+					}
+					ob["t1"] = time.Now().UnixMilli()
 				default:
 					ob = r.runOp(op)
 				}
